@@ -75,6 +75,24 @@ func genCLICases(w *caseWriter, bin string, rng *rand.Rand, st *pkgStats, tier s
 	cfg.Contents = nil
 	cfg.Version = "1.2.3"
 	cfg.Release = "2"
+	// per-format settings that reach the conventional name only through the format's override block
+	cfg.Overrides = map[string]*nfpm.Overridables{}
+	for _, f := range allFormats {
+		ov := &nfpm.Overridables{}
+		switch f {
+		case "deb":
+			ov.Deb.Arch = "ovrdeb"
+		case "rpm":
+			ov.RPM.Arch = "ovrrpm"
+		case "apk":
+			ov.APK.Arch = "ovrapk"
+		case "ipk":
+			ov.IPK.Arch = "ovripk"
+		case "archlinux":
+			ov.ArchLinux.Arch = "ovrarch"
+		}
+		cfg.Overrides[f] = ov
+	}
 	yamlPath := filepath.Join(work, "nfpm.yaml")
 	must(os.WriteFile(yamlPath, []byte(marshalConfig(&cfg)), 0o644))
 	exts := map[string]string{"deb": ".deb", "rpm": ".rpm", "apk": ".apk", "ipk": ".ipk", "archlinux": ".pkg.tar.zst"}
